@@ -42,7 +42,7 @@ PROPS = {
              assumptions=["model (coq/Model/Euler.v) is hand-written; tied to /repo by the exact-arithmetic correspondence of this run",
               "threshold: the code compares with cast(0.499) (the f64 nearest 0.499), so the regular band is |qx qz + qy qw| <= cast(0.499), i.e. |sin y| <= 0.998 up to 2e-18",
               "atan2/asin: Coq's real functions in the R theorems (atan2 defined in Proofs/RealInst.v with its characterisation); oracle tables in the correspondence",
-              "PARTIAL: the 0.13 bound on the rebuilt matrix inside the gimbal cone is not proved; it is only tested natively in f64 on sampled unit quaternions (clause euler:gimbal-0.13(f64))",
+              "the 0.13 bound on the rebuilt matrix inside the gimbal cone is C07_gimbal_bound (over R); natively in f64 it is tested on sampled unit quaternions (clause euler:gimbal-0.13(f64))",
               "C07_threshold_and_quarter_turn uses the interval tactic (primitive-integer/float axioms of the standard library)"],
              trusted=["rustc monomorphisation of the generic code at Xq", "libm atan2/asin for the f64 fallback answers recorded in the oracle tables of generic-unit / threshold-sweep cases"]),
     "C08": P(8, assumptions=["model (coq/Model/Transform.v) is hand-written; tied to /repo by the exact-arithmetic correspondence of this run",
